@@ -218,12 +218,16 @@ impl<'de> serde::de::Visitor<'de> for CfgFileVisitor {
 
         let extensions = extensions.unwrap_or_default();
 
+        // the default locale is always part of the locales, even when it is not listed
+        // (`ConfigFile::new` adds it afterward).
+        let is_known_locale = |key: &Key| key == &default || locales.contains(key);
+
         for (k, v) in &extensions {
-            if !locales.contains(k) {
+            if !is_known_locale(k) {
                 return Err(serde::de::Error::custom(format!("unknown locale {:?}", k)));
             }
 
-            if !locales.contains(v) {
+            if !is_known_locale(v) {
                 return Err(serde::de::Error::custom(format!("unknown locale {:?}", v)));
             }
         }
